@@ -17,9 +17,12 @@ EPS = 1e-9
 class _FakeRandom:
     def __init__(self):
         self.chooser = None
+        self.fixed = None       # callable(kind, a, b, step) -> value: fixed draws (send-loop part)
         self.calls = []
 
     def randint(self, a, b):
+        if self.fixed is not None:
+            return min(max(self.fixed('randint', a, b), a), b)
         v = a + self.chooser.choose(b - a + 1, f'randint({a},{b})')
         self.calls.append(('randint', a, b, v))
         return v
@@ -27,6 +30,9 @@ class _FakeRandom:
     def randrange(self, a, b=None, step=1):
         if b is None:
             a, b = 0, a
+        if self.fixed is not None:
+            want = self.fixed('randrange', a, b, step)
+            return min(range(a, b, step), key=lambda x: abs(x - want))
         n = len(range(a, b, step))
         v = a + step * self.chooser.choose(n, f'randrange({a},{b})')
         self.calls.append(('randrange', a, b, v))
@@ -173,7 +179,79 @@ def run(ctx):
                               case={'kind': 'schedule', 'params': name, 'choices': choices})
             ctx.outcome(f'{name}:draw-calls={len(calls)}')
         ctx.note(f'executions_{name}', n)
+    _send_loop(ctx, ntmod, wsdimpl, frandom)
     _loopback(ctx, ntmod, wsdimpl, frandom)
+
+
+def _send_loop(ctx, ntmod, wsdimpl, frandom):
+    """The real send loop on a virtual clock: every transmission leaves at its scheduled time (within the raster of the
+    loop), whenever stop is requested - before the first transmission, between any two, or never."""
+    clock = {'now': NOW, 'stop_at': None}
+    sent = []
+    holder = {}
+
+    class _Sock:
+        def sendto(self, data, addr):  # noqa: ARG002
+            sent.append(clock['now'])
+
+    class _Sel:
+        def select(self, timeout=None):  # noqa: ARG002
+            return [(types.SimpleNamespace(fileobj=_Sock()), 1)]
+
+    def vsleep(seconds):
+        clock['now'] += seconds
+        if clock['stop_at'] is not None and clock['now'] >= clock['stop_at']:
+            holder['nt'].schedule_stop()
+    old_time = ntmod.time
+    ntmod.time = types.SimpleNamespace(time=lambda: clock['now'], monotonic=lambda: clock['now'], sleep=vsleep,
+                                       perf_counter=lambda: clock['now'])
+    try:
+        wsd = _RecordingWsd()
+        for name, params in (('unicast', ntmod.UNICAST_REPEAT_PARAMS), ('multicast', ntmod.MULTICAST_REPEAT_PARAMS)):
+            init = sorted({0, params.max_initial_delay_ms // 2, params.max_initial_delay_ms})
+            gaps = sorted({params.min_delay_ms, (params.min_delay_ms + params.max_delay_ms) // 2, params.max_delay_ms})
+            for d0 in init:
+                for g0 in gaps:
+                    frandom.fixed = lambda kind, a, b, step=1, d0=d0, g0=g0: d0 if kind == 'randint' else g0  # noqa: ARG005
+                    probe = _mk_nt(ntmod, wsd)
+                    clock['now'] = NOW
+                    clock['stop_at'] = None
+                    probe.add_outbound_message(_mk_message(wsdimpl), '239.255.255.250', 3702, params)
+                    schedule = [e.send_time for e in _drain(probe)]
+                    stops = [None, NOW] + [(a + b) / 2 for a, b in zip([NOW] + schedule, schedule)] + [schedule[-1] + 1.0]
+                    for stop_at in stops:
+                        nt = _mk_nt(ntmod, wsd)
+                        holder['nt'] = nt
+                        nt._outbound_selector = _Sel()
+                        clock['now'] = NOW
+                        del sent[:]
+                        nt.add_outbound_message(_mk_message(wsdimpl), '239.255.255.250', 3702, params)
+                        clock['stop_at'] = schedule[-1] + 5.0 if stop_at is None else stop_at   # the loop has to end some time
+                        if stop_at is not None and stop_at <= NOW:
+                            nt.schedule_stop()
+                        nt._run_send()
+                        ctx.transition(len(sent))
+                        ctx.trace()
+                        ctx.evals()
+                        ctx.add('states')
+                        key = f'{name}/d0={d0}/g0={g0}/stop={"never" if stop_at is None else round(stop_at - NOW, 3)}'
+                        ctx.nontrivial(('send-loop', key, tuple(round((a - NOW) * 1000) for a in sent)))
+                        if len(sent) != len(schedule):
+                            ctx.violation(f'send-loop/transmissions-lost-or-added/{name}',
+                                          {'case': key, 'sent': len(sent), 'scheduled': len(schedule)}, case={'kind': 'send-loop'})
+                            continue
+                        raster = ntmod.SEND_LOOP_IDLE_SLEEP + ntmod.SEND_LOOP_BUSY_SLEEP + 1e-6
+                        early = [(round(a - NOW, 4), round(sch - NOW, 4)) for a, sch in zip(sent, schedule) if a < sch - 1e-9]
+                        late = [(round(a - NOW, 4), round(sch - NOW, 4)) for a, sch in zip(sent, schedule) if a > sch + raster]
+                        if early:
+                            ctx.violation(f'send-loop/sent-before-scheduled-time/{name}/stop-{"requested" if stop_at is not None else "never"}',
+                                          {'case': key, 'sent_vs_scheduled_s': early}, case={'kind': 'send-loop'})
+                        if late:
+                            ctx.violation(f'send-loop/sent-later-than-raster/{name}', {'case': key, 'sent_vs_scheduled_s': late},
+                                          case={'kind': 'send-loop'})
+    finally:
+        ntmod.time = old_time
+        frandom.fixed = None
 
 
 def _loopback(ctx, ntmod, wsdimpl, frandom):
@@ -303,5 +381,6 @@ def replay(ctx, case):
         for rule, info in bad:
             ctx.violation(f'schedule/{case["params"]}/{rule}', info)
         return {'send_offsets': [e.send_time - NOW for e in entries], 'broken': bad}
+    _send_loop(ctx, ntmod, wsdimpl, frandom)
     _loopback(ctx, ntmod, wsdimpl, frandom)
     return {'violations': sorted(ctx.violations)}
